@@ -259,6 +259,10 @@ func (ms *Modules) FindModuleByNamespace(ns string) (*Module, error) {
 		if m.Namespace.Name == ns {
 			switch {
 			case m == found:
+			case found != nil && m.Name == found.Name:
+				// Two revisions of one module are loaded; the bare
+				// name denotes the latest of them.
+				found = ms.Modules[m.Name]
 			case found != nil:
 				return nil, fmt.Errorf("namespace %s matches two or more modules (%s, %s)",
 					ns, found.Name, m.Name)
